@@ -44,24 +44,43 @@ impl Outcome {
             _ => None,
         }
     }
+
+    /// Joins shell expression, expectation lines and exit code. Expectations
+    /// that are kept as they were written can start with `> `; directly
+    /// after the shell expression that would read as its continuation, so the
+    /// exit code line (written out even if it is 0) goes in between.
+    fn assemble_testcase(&self, expectation_lines: &str) -> String {
+        let mut generated = self.generate_testcase_expression();
+        if expectation_lines.starts_with("> ") {
+            let exit_code = match &self.output.exit_code {
+                ExitStatus::Code(code) => *code,
+                _ => 0,
+            };
+            generated.push_str(&formatln!("[{}]", exit_code));
+            generated.push_str(expectation_lines);
+        } else {
+            generated.push_str(expectation_lines);
+            if let Some(exit_code) = self.generate_testcase_exit_code() {
+                generated.push_str(&exit_code)
+            }
+        }
+        generated
+    }
 }
 
 impl OutcomeTestGenerator for Outcome {
     fn generate_testcase(&self) -> Result<String> {
         match &self.result {
             Ok(_) => {
-                let mut generated = self.generate_testcase_expression();
+                let mut generated = String::new();
                 self.testcase.expectations.iter().for_each(|expectation| {
                     generated.push_str(&expectation.original_string().assure_newline())
                 });
-                if let Some(exit_code) = self.generate_testcase_exit_code() {
-                    generated.push_str(&exit_code)
-                }
-                Ok(generated)
+                Ok(self.assemble_testcase(&generated))
             }
             Err(err) => match err {
                 TestCaseError::MalformedOutput(diff) => {
-                    let mut generated = self.generate_testcase_expression();
+                    let mut generated = String::new();
 
                     // output the actual recorded output lines
                     for diff_line in diff.lines.iter() {
@@ -93,10 +112,7 @@ impl OutcomeTestGenerator for Outcome {
                             _ => continue,
                         }
                     }
-                    if let Some(exit_code) = self.generate_testcase_exit_code() {
-                        generated.push_str(&exit_code)
-                    }
-                    Ok(generated)
+                    Ok(self.assemble_testcase(&generated))
                 }
                 TestCaseError::InvalidExitCode {
                     actual,
